@@ -1,7 +1,7 @@
 (* Extraction of the executable C17 model (ExtrOcamlBasic only). *)
 From Coq Require Import ExtrOcamlBasic.
 From Coq Require Extraction.
-From LJT Require Import model.Huff gen.GenParams model.CParams model.CProgScript model.CRestart model.CMarker model.CParamApi model.CRefine.
+From LJT Require Import model.Huff gen.GenParams model.CParams model.CProgScript model.CRestart model.CMarker model.CParamApi model.CRefine model.CModules.
 Extraction Language OCaml.
 Extraction "x_c17.ml" validate_script initial_setup per_scan_setup master_start master_rest
   run_master encode_one_block flush_bits bitstate0 zigzag_block make_c_derived
@@ -9,6 +9,6 @@ Extraction "x_c17.ml" validate_script initial_setup per_scan_setup master_start 
   g_ZERO_QUANT_REJECTED g_BUFSIZE in_bounds simple_progression simple_nscans sp_workspace wspace0 image_intervals dri_run assemble encode_mk regen_std optimize_eff dcrefine_of pass_trace
   g_std_luminance_quant_tbl g_std_dc_bits g_std_dc_vals g_std_ac_bits g_std_ac_vals
   g_std_chrominance_quant_tbl g_std_dcc_bits g_std_dcc_vals g_std_acc_bits g_std_acc_vals write_tables_only api_write_marker bytes_of
-  refine_scan g_CORR_BUFFER_SIZE set_quality_tables linear_quality_tables set_colorspace default_colorspace select_modules tj_compress_setup
+  refine_scan g_CORR_BUFFER_SIZE set_quality_tables linear_quality_tables set_colorspace default_colorspace select_modules select_modules_gen tj_compress_setup
   g_TJPARAM_QUALITY g_TJPARAM_SUBSAMP g_TJPARAM_PRECISION g_TJPARAM_COLORSPACE g_TJPARAM_LOSSLESS g_TJPARAM_LOSSLESSPSV
   g_TJPARAM_LOSSLESSPT g_TJPARAM_PROGRESSIVE g_TJPARAM_ARITHMETIC g_TJPARAM_OPTIMIZE g_TJPARAM_RESTARTBLOCKS g_TJPARAM_RESTARTROWS.
